@@ -865,6 +865,15 @@ func c10Entries(r *verifh.Rng) []c10Cfg {
 			out = append(out, c)
 		}
 	}
+	// more functions than defaultWorkers: Finish / FinishVoid must still run all of them at once
+	for _, api := range []string{"finish", "finishvoid"} {
+		n := r.Range(17, 19)
+		c := mk(api, n, n)
+		for i := 0; i < n; i++ {
+			c.m[i] = []string{"us" + it(n-1)}
+		}
+		out = append(out, c)
+	}
 	// a call with few workers, then calls without WithWorkers that need more than that at once (options must not
 	// leak from one call into the next), and nested calls from inside mappers / the reducer of a 1-worker call
 	for _, wfirst := range []string{"1", "0", "-4", "2"} {
